@@ -271,7 +271,7 @@ func safely(f func() Verdict) (v Verdict) {
 // idClass: the leading identifier characters of a case id (operation / family).
 func idClass(id string) string {
 	for i, r := range id {
-		if !(r >= 'a' && r <= 'z' || r >= 'A' && r <= 'Z' || r >= '0' && r <= '9' || r == '/' || r == '_') {
+		if !(r >= 'a' && r <= 'z' || r >= 'A' && r <= 'Z' || r == '/' || r == '_') {
 			return id[:i]
 		}
 	}
